@@ -412,7 +412,7 @@ func c16ReadCorpus(out *vlib.Out) {
 	for _, mode := range []bool{false, true} {
 		c = &c16ReadCase{hbMode: mode, maxMsg: 40, hb: hb, items: []c16Item{{mk(5, 1), "-", false}, {nil, "-", false}, {mk(41, 3), "-", false}, {mk(40, 7), "-", false}}}
 		c16Pad(c, []int{1, 40, 41, 0, 100})
-		c16RunReadCase(out, c, true)
+		c16RunReadCase(out, c, mode)
 	}
 	// realistic sizes: maximum message size 65536, reads of 1 … beyond it
 	big := mk(65536, 0)
@@ -515,6 +515,11 @@ func c16ReadRandom(out *vlib.Out, r *vlib.Rand, n int) {
 			case x == 5:
 				it.b = r.Bytes(maxMsg + r.Range(1, 3))
 				out.Count("item:oversized")
+				if !mode {
+					// pion never delivers more than the maximum message size; whether such a message is
+					// dropped depends on the caller's buffer (the bypass): correspondence only
+					useOracle = false
+				}
 			case x == 6:
 				out.Count("item:empty")
 			case x < 10:
@@ -527,7 +532,7 @@ func c16ReadRandom(out *vlib.Out, r *vlib.Rand, n int) {
 			if r.Chance(1, 8) {
 				it.err = []string{"other", "timeout", "eof", "closed", "short"}[r.Intn(5)]
 				out.Count("item:with-error")
-				if it.hb {
+				if mode && bytes.Equal(it.b, hb) {
 					useOracle = false // an error attached to a heartbeat is ignored by the loop: correspondence only
 				}
 			}
